@@ -132,6 +132,11 @@ fn catalogue() -> Vec<Value> {
         json!({"k": "ud_list", "ca": "A", "child": "X"}),
         json!({"k": "child_upd", "ca": "A", "child": "B", "ent": "l"}),
         json!({"k": "child_upd", "ca": "A", "child": "B", "ent": "s"}),
+        json!({"k": "ca_add", "ca": "Z"}),
+        json!({"k": "ca_id", "ca": "Z"}),
+        json!({"k": "ca_show", "ca": "Z"}),
+        json!({"k": "ca_del", "ca": "Z"}),
+        json!({"k": "ca_del", "ca": "Z"}),
         json!({"k": "roll_init", "ca": "B"}),
         json!({"k": "roll_activate", "ca": "B"}),
         json!({"k": "roll_init", "ca": "A"}),
